@@ -25,7 +25,10 @@ CLAIMED = {
             "prune_files_by_bounds keeps exactly the may-match files and looks bounds up under the table schema's id for the "
             "column (ID-MAP), that _encode_bound/_decode_bound round-trip value and Python type for every supported bound type, and "
             "that _compute_column_bounds stores the column's min/max under its own field id. Lifting per-conjunct soundness to "
-            "equality of pruned and unpruned results is a stated meta-argument over T-arrow distributivity.",
+            "equality of pruned and unpruned results is a stated meta-argument over T-arrow distributivity. Also: bounds shapes (none, one "
+            "side missing, statistics for other columns only), 32-bit float columns under IN (is_in rounds the value set to the column "
+            "type: rounding as an uninterpreted function shared with the model of struct.pack/unpack), and the write path "
+            "(write_data_file computes the statistics from the very records written; multi-batch appends by bounded scenario).",
             "Trusted: T-arrow comparison/min-max semantics (sampled against pyarrow by the replay scripts, not proved), Python "
             "float comparison = order of extended reals with NaN unordered, JSON and isoformat round trips, Avro map<string> "
             "round trip between create_manifest_file and read_manifest_file (T-codec). Mixed int/float pairs are proved under "
